@@ -199,7 +199,7 @@ macro_rules! range_harnesses {
                 let sink = match enc.into_compressed() { Ok(s) => s, Err(_) => { assert!(false, "C11/C02/C06/C18/C12: seal failed on a non-full sink"); return; } };
                 // independent assertion groups (see kx::group): 0 size report, 1 sealing rule, 2 containment, 3 end of stream
                 let grp = group(4);
-                if grp == 0 { assert!(nwords == sink.n, "C18: num_words differs from the number of words sealing writes"); return; }
+                if grp == 0 { assert!(nwords == sink.n, "C18/C12: num_words differs from the number of words sealing writes"); return; }
                 if sink.n < npend + 1 || sink.n > npend + 2 { assert!(false, "C12/C11/C02/C06: seal must add one or two words to the pending ones"); return; }
                 let nseal = sink.n - npend;
                 if grp == 1
